@@ -80,21 +80,25 @@ pub fn predicate_pushdown_rules() -> Vec<Rewrite> { vec![
         "(join ?type (and ?cond1 ?cond2) ?left ?right)" =>
         "(join ?type ?cond2 (filter ?cond1 ?left) ?right)"
         if not_depend_on("?cond1", "?right")
+        if can_filter_left_input("?type")
     ),
     rw!("pushdown-join-condition-left-1";
         "(join ?type ?cond1 ?left ?right)" =>
         "(join ?type true (filter ?cond1 ?left) ?right)"
         if not_depend_on("?cond1", "?right")
+        if can_filter_left_input("?type")
     ),
     rw!("pushdown-join-condition-right";
         "(join ?type (and ?cond1 ?cond2) ?left ?right)" =>
         "(join ?type ?cond2 ?left (filter ?cond1 ?right))"
         if not_depend_on("?cond1", "?left")
+        if can_filter_right_input("?type")
     ),
     rw!("pushdown-join-condition-right-1";
         "(join ?type ?cond1 ?left ?right)" =>
         "(join ?type true ?left (filter ?cond1 ?right))"
         if not_depend_on("?cond1", "?left")
+        if can_filter_right_input("?type")
     ),
     rw!("pushdown-filter-apply-left";
         "(filter ?cond (apply ?type ?left ?right))" =>
@@ -102,6 +106,26 @@ pub fn predicate_pushdown_rules() -> Vec<Rewrite> { vec![
         if not_depend_on("?cond", "?right")
     ),
 ]}
+
+/// A part of the join condition that only refers to the left input can become a filter on that
+/// input unless the join preserves unmatched left rows: a left row failing it must still come
+/// out of a left/full outer join (padded with NULLs) and of an anti join.
+fn can_filter_left_input(join_type: &str) -> impl Fn(&mut EGraph, Id, &Subst) -> bool {
+    let join_type = var(join_type);
+    move |egraph, _, subst| {
+        (egraph[subst[join_type]].nodes.iter())
+            .any(|e| matches!(e, Expr::Inner | Expr::RightOuter | Expr::Semi))
+    }
+}
+
+/// Likewise for the right input, whose unmatched rows are preserved by right/full outer joins.
+fn can_filter_right_input(join_type: &str) -> impl Fn(&mut EGraph, Id, &Subst) -> bool {
+    let join_type = var(join_type);
+    move |egraph, _, subst| {
+        (egraph[subst[join_type]].nodes.iter())
+            .any(|e| matches!(e, Expr::Inner | Expr::LeftOuter | Expr::Semi | Expr::Anti))
+    }
+}
 
 /// Returns a rule to pushdown plan `a` through `b`.
 fn pushdown(a: &str, a_args: &str, b: &str, b_args: &str) -> Rewrite {
